@@ -33,6 +33,7 @@ CONSTANTS
     Budget,      \* total ops over the behaviour (after the init step)
     MaxSteps,    \* driver steps (including the init step)
     InitOps,     \* ops of the first driver step
+    Excl,        \* pre-spawned systems that are exclusive (`&mut World`) systems: no accessor params, ops through world.commands()
     AppRegs,     \* reactors registered at start-up with App::add_reactor (one bundle each, persistent): systems after the world reactors
     StepKinds,   \* subset of {"ops","gc","poll","clear"}
     Features,    \* subset of {"err","notake","take2"}
@@ -95,7 +96,7 @@ WInit0 ==
 
 CfgRec == [t |-> "cfg", nsys |-> NSys, nonce |-> NOnce, nent |-> NEnt, nworld |-> NW, neworld |-> NER, hier |-> Hier,
            app |-> AppRegs, appsys |-> NApp,
-           kinds |-> [ i \in 1..NSys |-> "plain" ]]
+           kinds |-> [ i \in 1..NSys |-> IF i \in Excl THEN "excl" ELSE "plain" ]]
 
 ----------------------------------------------------------------------------
 (* handles, garbage collection                                     [auto_despawn.rs] *)
@@ -350,8 +351,9 @@ DispatchW(x, trig, ty, ent, p) ==
 
 Targets(x) == (1..NSys) \cup x.spawned
 
-OpEffect(x, op, ret) ==
-    LET n == op[1] IN
+OpEffect(x, op0, ret) ==
+    LET op == NormOp(op0)
+        n == op[1] IN
     CASE n = "run" -> [w |-> x, out |-> <<>>, q |-> << [Cmd0 EXCEPT !.c = "run", !.s = op[2]] >>]
       [] n = "sysev" -> [w |-> x, out |-> <<>>, q |-> << [Cmd0 EXCEPT !.c = "sysev", !.s = op[2], !.p = op[3]] >>]
       [] n = "sysevsig" -> [w |-> x, out |-> <<>>, q |-> << [Cmd0 EXCEPT !.c = "sysev", !.s = op[2], !.p = op[3], !.e = op[4]] >>]
@@ -522,8 +524,12 @@ RFinal(x, fr) ==
 IssueRec(r, i, op, ret) == [t |-> "issue", r |-> r, i |-> i, op |-> op, ret |-> ret]
 
 (* queue-time effect and return value of op [react_component.rs, react_resource.rs, react_commands.rs:insert] *)
-IssueW(x, op) ==
-    LET n == op[1] IN
+Holders(x, c) == { e \in Ents : e \in x.aliveE /\ x.comp[<<e, c>>] # 0 }
+IssueW(x, op0) ==
+    LET op == NormOp(op0)
+        n == op[1] IN
+    \* the single-entity accessors are only called when exactly this entity carries the component (else the op is skipped)
+    IF op0[1] \in {"smut", "sset", "sno"} /\ Holders(x, op0[3]) # {op0[2]} THEN [w |-> x, ret |-> -9] ELSE
     CASE n \in {"sysev", "sysevsig"} -> [w |-> [x EXCEPT !.nextP = IF op[3] >= @ THEN op[3] + 1 ELSE @], ret |-> 0]
       [] n = "bc" -> [w |-> [x EXCEPT !.nextP = IF op[3] >= @ THEN op[3] + 1 ELSE @], ret |-> 0]
       [] n = "eev" -> [w |-> [x EXCEPT !.nextP = IF op[4] >= @ THEN op[4] + 1 ELSE @], ret |-> 0]
@@ -558,7 +564,8 @@ IssueW(x, op) ==
 
 (* the ops a free body may issue next; `go(op)` is the continuation *)
 EBundles(e) == { << <<"emut", e, 1>> >>, << <<"eev", e, 1>> >>, << <<"emut", e, 1>>, <<"eev", e, 1>> >> }
-DirectOps == {"xrm", "xdesp", "xdesprec"}
+DirectOps == {"xrm", "xdesp", "xdesprec", "xbc", "xeev", "xsysev"}
+NeedAccess == {"resmut", "resset", "resno", "mut", "set", "noreact", "wadd", "wrem", "wrun", "eadd", "erem", "sysevsig", "smut", "sset", "sno"}
 FreeOp(x, cur, OpNames_, go(_)) ==
     \/ "run" \in OpNames_ /\ \E s \in Targets(x) : go(<<"run", s>>)
     \/ "sysev" \in OpNames_ /\ \E s \in Targets(x) : go(<<"sysev", s, x.nextP>>)
@@ -580,6 +587,12 @@ FreeOp(x, cur, OpNames_, go(_)) ==
     \/ "xdesp" \in OpNames_ /\ \E e \in Ents : go(<<"xdesp", e>>)
     \/ "xdesprec" \in OpNames_ /\ \E e \in Ents : go(<<"xdesprec", e>>)
     \/ "xrm" \in OpNames_ /\ \E e \in Ents, t \in Tys : go(<<"xrm", e, t>>)
+    \/ "xsysev" \in OpNames_ /\ \E s \in Targets(x) : go(<<"xsysev", s, x.nextP>>)
+    \/ "xbc" \in OpNames_ /\ \E t \in Tys : go(<<"xbc", t, x.nextP>>)
+    \/ "xeev" \in OpNames_ /\ \E e \in Ents, t \in Tys : go(<<"xeev", e, t, x.nextP>>)
+    \/ "smut" \in OpNames_ /\ \E e \in Ents, t \in Tys, v \in 1..NVal : Holders(x, t) = {e} /\ go(<<"smut", e, t, v>>)
+    \/ "sset" \in OpNames_ /\ \E e \in Ents, t \in Tys, v \in 1..NVal : Holders(x, t) = {e} /\ go(<<"sset", e, t, v>>)
+    \/ "sno" \in OpNames_ /\ \E e \in Ents, t \in Tys, v \in 1..NVal : Holders(x, t) = {e} /\ go(<<"sno", e, t, v>>)
     \/ "despsys" \in OpNames_ /\ \E s \in Targets(x) : go(<<"despsys", s>>)
     \/ "reg" \in OpNames_ /\ \E md \in Modes, s \in 1..NSys, b \in Bundles :
             /\ x.sysmode[s] # 2 /\ ~(x.sysmode[s] = 1 /\ md # "persistent")
@@ -624,7 +637,7 @@ RBodyEnd(x, fr, err) ==
     (* body returned: cleanup, then its commands are applied in order   [callbacks.rs:run_initialized_system] *)
     LET cl == CleanupW(x, fr.kind)
         items0 == [ i \in DOMAIN fr.ops |-> [Cmd0 EXCEPT !.c = "op", !.r = fr.r, !.i = i, !.op = fr.ops[i].op, !.ret = fr.ops[i].ret] ]
-        items == SelectSeq(items0, LAMBDA it : it.op[1] # "setlocal")
+        items == SelectSeq(items0, LAMBDA it : it.op[1] # "setlocal" /\ it.ret # -9)
         late == "cleanup_after_commands" \in Mutants
         q == IF late THEN Append(items, [Cmd0 EXCEPT !.c = "cleanup", !.kind = fr.kind]) ELSE items
         x1 == SetTopF(IF late THEN x ELSE cl.w, [fr EXCEPT !.pc = "post"])
@@ -692,7 +705,7 @@ StepBody(fr) ==
               IN IF Len(fr.ops) < Len(sc.ops) THEN Emit(RBodyOp(w, fr, sc.ops[Len(fr.ops) + 1]))
                  ELSE Emit(RBodyEnd(w, fr, sc.err))
          ELSE \/ /\ Len(fr.ops) < BodyOps /\ w.budget > 0
-                 /\ FreeOp(w, fr.s, OpNames, LAMBDA op : Emit(RBodyOp(w, fr, op)))
+                 /\ FreeOp(w, fr.s, IF fr.s \in Excl THEN OpNames \ NeedAccess ELSE OpNames, LAMBDA op : Emit(RBodyOp(w, fr, op)))
               \/ \E err \in (IF "err" \in Features THEN {FALSE, TRUE} ELSE {FALSE}) : Emit(RBodyEnd(w, fr, err))
 
 StepR(fr) ==
@@ -714,7 +727,8 @@ StepD(fr) ==
     CASE fr.pc = "issue" ->
             IF Len(fr.issued) < Len(fr.ops)
             THEN DIssue(fr, fr.ops[Len(fr.issued) + 1])
-            ELSE LET items == [ i \in DOMAIN fr.issued |-> [Cmd0 EXCEPT !.c = "op", !.r = -w.step, !.i = i, !.op = fr.issued[i].op, !.ret = fr.issued[i].ret] ]
+            ELSE LET items == SelectSeq([ i \in DOMAIN fr.issued |-> [Cmd0 EXCEPT !.c = "op", !.r = -w.step, !.i = i, !.op = fr.issued[i].op, !.ret = fr.issued[i].ret] ],
+                                        LAMBDA it : it.ret # -9)
                  IN Emit([w |-> PushF(SetTopF(w, [fr EXCEPT !.pc = "wait"]), QFrame(items, <<>>)), out |-> <<>>])
       [] fr.pc = "free" ->
             \/ /\ Len(fr.issued) < MaxOps /\ w.budget > 0
@@ -722,7 +736,8 @@ StepD(fr) ==
                        Emit([w |-> SetTopF([is.w EXCEPT !.budget = @ - 1], [fr EXCEPT !.issued = Append(@, [op |-> op, ret |-> is.ret])]),
                              out |-> << IssueRec(-w.step, Len(fr.issued) + 1, op, is.ret) >>]))
             \/ /\ Len(fr.issued) > 0
-               /\ LET items == [ i \in DOMAIN fr.issued |-> [Cmd0 EXCEPT !.c = "op", !.r = -w.step, !.i = i, !.op = fr.issued[i].op, !.ret = fr.issued[i].ret] ]
+               /\ LET items == SelectSeq([ i \in DOMAIN fr.issued |-> [Cmd0 EXCEPT !.c = "op", !.r = -w.step, !.i = i, !.op = fr.issued[i].op, !.ret = fr.issued[i].ret] ],
+                                          LAMBDA it : it.ret # -9)
                   IN Emit([w |-> PushF(SetTopF(w, [fr EXCEPT !.pc = "wait"]), QFrame(items, <<>>)), out |-> <<>>])
       [] fr.pc = "wait" ->
             IF fr.frame
